@@ -19,6 +19,7 @@ noncomputable def realSp (sp : Sp ℝ) : Sp ℝ :=
     log1p := fun y => Real.log (1 + y)
     rpow := fun x y => x ^ y
     nanToNum := id
+    nanToNum0 := id
     abs := fun x => |x| }
 
 /-- `exp(logpdf x)` of `GammaMessage(α, β)` on its support is `β^α / Γ(α) · x^(α−1) · e^(−βx)` -/
